@@ -32,3 +32,10 @@ Definition batch_case := (list bool * nat * list nat * nat * nat * list nat)%typ
 Definition check_batch_ok (c : batch_case) : bool :=
   let '(lab, kind, l, m, bs, picks) := c in
   batch_ok lab (cand_of kind l m) bs picks.
+
+(* functional correspondence of the canonical skeleton: (labeled mask, kind, l, m, bs, scores of the
+   candidates in mapping order, tie-breaking noise per step, trace returned by the implementation) *)
+Definition skel_case := (list bool * nat * list nat * nat * nat * list val * list (list Z) * list (nat * list val))%type.
+Definition check_skeleton (c : skel_case) : bool :=
+  let '(lab, kind, l, m, bs, scores, noises, t) := c in
+  list_eqb (pair_eqb Nat.eqb (list_eqb oz_eqb)) (skeleton lab (cand_of kind l m) scores noises bs) t.
